@@ -29,6 +29,7 @@ VARIABLES st, ops, hist, kinds
 vars == <<st, ops, hist, kinds>>
 view == <<st, ops, kinds>>
 
+MinusOne == -1      \* cfg files cannot write negative numbers: `W <- MinusOne` configures a negative window
 Byte(e, s, i) == 100 * s + 10 * e + i
 Step(op, e, s, n) == [op |-> op, e |-> e, s |-> s, n |-> n]
 Room(e) == Len(st.wire[e]) < WireCap
